@@ -239,18 +239,19 @@ def cargo_build(timeout=1500):
                 return False, out + err
         # the positioned-AST probe (C17) uses more of ucglib's internals; when a change in /repo stops it from building, only the
         # correspondence that needs it is reported broken - the checks themselves still run
-        probe = os.path.join(TARGET, "debug", "posprobe")
-        rc, out, err = sh(["cargo", "build", "--offline", "-q", "--bin", "posprobe"], cwd=hdir, timeout=timeout)
-        note = os.path.join(CACHE, "posprobe.err")
-        if rc != 0:
-            try:
-                os.remove(probe)
-            except OSError:
-                pass
-            with open(note, "w") as f:
-                f.write((out + err)[-3000:])
-        elif os.path.exists(note):
-            os.remove(note)
+        for pb in ("posprobe", "pvmprobe"):
+            probe = os.path.join(TARGET, "debug", pb)
+            rc, out, err = sh(["cargo", "build", "--offline", "-q", "--bin", pb], cwd=hdir, timeout=timeout)
+            note = os.path.join(CACHE, pb + ".err")
+            if rc != 0:
+                try:
+                    os.remove(probe)
+                except OSError:
+                    pass
+                with open(note, "w") as f:
+                    f.write((out + err)[-3000:])
+            elif os.path.exists(note):
+                os.remove(note)
         rc, out, err = sh(["cargo", "build", "--offline", "-q", "--bin", "ucg",
                            "--manifest-path", os.path.join(REPO, "Cargo.toml")], timeout=timeout)
         if rc != 0:
@@ -263,6 +264,13 @@ def _limit_child():
     import resource
     try:
         resource.setrlimit(resource.RLIMIT_AS, (6 << 30, 6 << 30))
+    except (ValueError, OSError):
+        pass
+    try:
+        # extracted code recurses deeply (structural recursion on lists, Flocq on some floats)
+        soft, hard = resource.getrlimit(resource.RLIMIT_STACK)
+        want = 1 << 30
+        resource.setrlimit(resource.RLIMIT_STACK, (want if hard == resource.RLIM_INFINITY or hard >= want else hard, hard))
     except (ValueError, OSError):
         pass
 
